@@ -24,8 +24,8 @@ MANIFEST = {
     "note": "Partial: Oniguruma is not modelled beyond the fragment (literal characters, the four core patterns, groups), nor "
             "the rest of the pattern library, regex/date/boolean matchers, array/keyvalue/json filters, non-ASCII case mapping; "
             "number/scale only on short integer texts. Rule text is a regular expression by design: `a.c` matches `abc`; the "
-            "literal theorem is about the escaped text a user must write. Panics found on the way (scale on NaN, nullIf()) are "
-            "C04's subject and recorded as known findings. Trusted: Coq kernel + vm_compute, hand model Model/Grok.v (tied by "
+            "literal theorem is about the escaped text a user must write. Two panics found on the way (scale on NaN, nullIf()) "
+            "were repaired in /repo (d903663, 380c0c2) and are kept as regression cases. Trusted: Coq kernel + vm_compute, hand model Model/Grok.v (tied by "
             "correspondence), Rust harness, Python generator and its independent expectation. No axioms.",
     "design_ref": "DESIGN.md section 5 C32",
 }
@@ -220,6 +220,9 @@ def apply_filters(text, filters):
             if isinstance(v, str):
                 if not_float(v):
                     return ("drop",)
+                b = (v[1:] if v[:1] in "+-" else v).lower()
+                if b == "nan" or (b in ("inf", "infinity") and f[1] == 0):
+                    return ("drop",)          # the product is NaN: the filter fails (it used to panic)
                 if not int_like(v):
                     return ("unknown",)
                 v = int(v)
